@@ -51,7 +51,7 @@ func (c *FC) pos() string { return c.p.pos(c.fn.Pos()) }
 
 // callName gives the printed name of a call's callee as it appears in terms.
 func (c *FC) callName(call *ssa.Call) string {
-	return callNameOf(c.x, call)
+	return c.sh(callNameOf(c.x, call))
 }
 
 func callNameOf(x *TX, call *ssa.Call) string {
@@ -220,7 +220,16 @@ func (c *FC) effectSites() []ssa.Instruction {
 	for _, in := range c.p.effectSitesIn(c.fn, "W", "D", "EVENT") {
 		out = append(out, in)
 	}
-	out = append(out, c.ledgerSites()...)
+	seen := map[ssa.Instruction]bool{}
+	for _, in := range out {
+		seen[in] = true
+	}
+	for _, in := range c.ledgerSites() {
+		if !seen[in] {
+			seen[in] = true
+			out = append(out, in)
+		}
+	}
 	return out
 }
 
